@@ -43,6 +43,9 @@ def constructs(table, col):
 
 
 MALFORMED = [
+    # a group over an aggregation (ended the daemon before fix 57)
+    "GET services\nStats: avg latency\nStats: state = 0\nStatsOr: 2\n\n", "GET services\nStats: state = 0\nStats: sum latency\nStatsAnd: 2\n\n",
+    "GET hosts\nStats: min latency\nStats: max latency\nStatsAnd: 2\nStatsNegate:\n\n", "GET hosts\nStats: state = 0\nStats: state = 1\nStatsOr: 2\nStats: avg latency\nStatsAnd: 2\n\n",
     "", "\n", "GET", "GET \n\n", "GET hosts", "GET  hosts\n\n", "GET Hosts\n\n", "get hosts\n\n", "GET hosts\nColumns\n\n", "GET hosts\n: x\n\n",
     "GET hosts\nFilter:\n\n", "GET hosts\nFilter: name\n\n", "GET hosts\nFilter: name =\n\n", "GET hosts\nFilter: name ?? x\n\n", "GET hosts\nFilter: state = abc\n\n",
     "GET hosts\nFilter: state = 99999999999999999999999999\n\n", "GET hosts\nFilter: state = -99999999999999999999\n\n", "GET hosts\nFilter: state = 1e400\n\n",
